@@ -2,13 +2,14 @@
 import random
 from ..comp import contract as CT
 from ..comp import textbook as TB
+from ..comp import storage as ST_
 from .. import gen
 
 ID = 'C12'
 THEOREMS = CT.THEOREMS_C12 + [
     ('EAO.Properties.C19', 'EAO.C19.dt_real', 'each step length equals the real elapsed time to the next point in main time units, for any point list (DST, calendar months)'),
-]
-PARTIAL = ['unit_change is proved for the contract / transport / multi-commodity builders (rates not given as price keys); for storages, CHP durations (min runtime etc.) and price-key rates the statement rests on the metamorphic oracle (re-optimisation under another main time unit)']
+] + ST_.THEOREMS_C12_STORAGE
+PARTIAL = ['unit_change is proved for the contract / transport / multi-commodity builders (rates not given as price keys) and for the Storage builder (full equality of the built problem under rescaling of rates, holding cost and maximum holding time); for CHP durations (min runtime etc.) and price-key rates the statement rests on the metamorphic oracle (re-optimisation under another main time unit)']
 COMPONENTS = ['contract/transport builders under unit pairs (dt scaling)', 'independent reference LP (harness/comp/textbook.py) on zone-aware daily grids across daylight-saving switches: costs and limits billed by elapsed time']
 RULE = ('metamorphic: random small portfolios (contracts, transports, storages, plants with durations) re-expressed for another main time unit among h, d, min, s (rates, inflow, holding cost, ramps scaled; durations scaled inversely) and re-optimised on the real code: value and dispatched volumes equal; '
         'totals on DST / calendar-month grids equal rate x elapsed time; builder correspondence cases; non-trivial = solved pair with non-zero value; distinct by case hash')
